@@ -14,6 +14,7 @@ package c07
 
 import (
 	"fmt"
+	"runtime/debug"
 	"sort"
 	"strings"
 
@@ -25,6 +26,7 @@ import (
 )
 
 func Check() *core.Check {
+	debug.SetGCPercent(400) // allocation-heavy workload (a map per JS object); the worker's address-space limit still applies
 	return &core.Check{
 		ID:    "C07",
 		Level: "exploration",
@@ -46,7 +48,7 @@ func Check() *core.Check {
 		},
 		MinConclusive: func(tier string) int { return 2000 },
 		NumPinned:     len(pinned),
-		CaseTimeoutS:  90,
+		CaseTimeoutS:  240,
 		Run:           run,
 	}
 }
@@ -235,7 +237,7 @@ func execCase(cs *Case, st *core.Stats) outcome {
 			if op.M == "toSorted" {
 				target = "res"
 			}
-			sv, e := E.run("SV(" + target + ",+" + target + ".length||0)")
+			sv, e := E.run("SV(" + target + ",Math.min(Math.max(Math.trunc(+" + target + ".length)||0,0),70000))")
 			if e != nil {
 				return engErr(i, e, "original")
 			}
@@ -375,9 +377,9 @@ func hasThrowingGetter(M *m.Realm) bool {
 }
 
 func exportExpected(M *m.Realm) string {
-	ll := len(M.Log)
+	ll, lln := len(M.Log), M.LogN
 	s := modelExport(M, M.Recv, 0)
-	M.Log = M.Log[:ll]
+	M.Log, M.LogN = M.Log[:ll], lln
 	return s
 }
 
@@ -408,7 +410,7 @@ func minimise(cs *Case, monitor string) *Case {
 		if budget <= 0 {
 			return false
 		}
-		budget--
+		budget -= 1 + len(c.Ops)/6 // long histories are dearer to re-execute (deterministic cost model, no clock)
 		o := execCase(c, core.NewStats())
 		return o.v != nil && o.v.monitor == monitor
 	}
